@@ -32,7 +32,7 @@ KINDS = ['b', 'i', 'u', 'f', 'c', 'S', 'U', 'O', 'M', 'm']
 def setitem_oracle(bc, boolnd):
     def oracle(atom, st):
         B = ('attr', SELF, '_broadcast')
-        if atom == ('cmp', 'is', B, T.CONST_NONE):
+        if atom == T.mkcmp('is', B, T.CONST_NONE):
             return False
         if atom == B:
             return bc
